@@ -1694,6 +1694,24 @@ func (x *scalarExec) globalTable(g *ssa.Global) (map[int64]int64, bool) {
 					}
 					ia, isIA := in.(*ssa.IndexAddr)
 					if st, isSt := in.(*ssa.Store); isSt && st.Addr == ssa.Value(g) && fn == initFn {
+						// var t = func() (t [N]T) { ... }(): the table is what the function literal computes
+						if call, isCall := st.Val.(*ssa.Call); isCall && len(call.Call.Args) == 0 {
+							var callee *ssa.Function
+							switch f := call.Call.Value.(type) {
+							case *ssa.Function:
+								callee = f
+							case *ssa.MakeClosure:
+								callee, _ = f.Fn.(*ssa.Function)
+							}
+							if callee != nil {
+								if vals, okE := evalInitTable(callee); okE {
+									for k, v := range vals {
+										tbl[k] = v
+									}
+									continue
+								}
+							}
+						}
 						// var t = [N]T{i: v, ...}: the literal is built in a local and stored whole
 						if ld, isLd := st.Val.(*ssa.UnOp); isLd && ld.Op == token.MUL {
 							if al, isAl := ld.X.(*ssa.Alloc); isAl && al.Referrers() != nil {
